@@ -25,6 +25,7 @@ def validate_trace(trace_path, module_path, cfg_path, workdir, timeout=900, xmx=
     """Validate one NDJSON trace with a trace spec.  Returns TraceResult; raises ToolError when TLC did
     not reach a verdict (parse error, evaluation error, timeout, StackOverflow...)."""
     fresh_dir(workdir)
+    trace_path = os.path.abspath(trace_path)
     n = sum(1 for l in open(trace_path) if l.strip())
     if n == 0:
         return TraceResult(True, 1, None, 0, "", 0.0)
